@@ -28,7 +28,8 @@ import (
 func lenvTerm(now int64) interface{} {
 	return Con("Build_lenv", I64(now), I64(constants.SentinelLockTimeWindow), I64(constants.SentinelRevokeTimeWindow),
 		Big(constants.SentinelZnnRegisterAmount), Big(constants.SentinelQsrDepositAmount),
-		I64(constants.PillarEpochLockTime), I64(constants.PillarEpochRevokeTime), Big(constants.PillarStakeAmount))
+		I64(constants.PillarEpochLockTime), I64(constants.PillarEpochRevokeTime), Big(constants.PillarStakeAmount),
+		Big(constants.PillarQsrStakeBaseAmount), Big(constants.PillarQsrStakeIncreaseAmount))
 }
 
 func (w *world) qsrDeposits(c types.Address) map[types.Address]*big.Int {
@@ -77,9 +78,39 @@ func (w *world) dumpPillar() interface{} {
 	sort.Slice(ps, func(i, j int) bool { return ps[i].Name < ps[j].Name })
 	l := Lst()
 	for _, p := range ps {
-		l = append(l, Tup(Byt([]byte(p.Name)), Con("Build_pillar", Byt(p.StakeAddress.Bytes()), Big(p.Amount), I64(p.RegistrationTime), I64(p.RevokeTime))))
+		l = append(l, Tup(Byt([]byte(p.Name)), Con("Build_pillar", Byt(p.StakeAddress.Bytes()), Big(p.Amount), I64(p.RegistrationTime), I64(p.RevokeTime),
+			Byt(p.BlockProducingAddress.Bytes()), Byt(p.RewardWithdrawAddress.Bytes()), I64(int64(p.GiveBlockRewardPercentage)), I64(int64(p.GiveDelegateRewardPercentage)), I64(int64(p.PillarType)))))
 	}
-	return Con("Build_lstore", l, depositsTerm(w.qsrDeposits(types.PillarContract)))
+	prod := Lst()
+	for _, k := range keysWithPrefix(st, 2) {
+		var a types.Address
+		copy(a[:], k)
+		pp, err := definition.GetProducingPillarName(st, a)
+		if err != nil {
+			panic(err)
+		}
+		prod = append(prod, Tup(Byt(k), Byt([]byte(pp.Name))))
+	}
+	del := Lst()
+	for _, k := range keysWithPrefix(st, 4) {
+		var a types.Address
+		copy(a[:], k)
+		d, err := definition.GetDelegationInfo(st, a)
+		if err != nil {
+			panic(err)
+		}
+		del = append(del, Tup(Byt(k), Byt([]byte(d.Name))))
+	}
+	leg := Lst()
+	ls, err := definition.GetLegacyPillarList(st)
+	if err != nil {
+		panic(err)
+	}
+	sort.Slice(ls, func(i, j int) bool { return string(ls[i].KeyIdHash[:]) < string(ls[j].KeyIdHash[:]) })
+	for _, e := range ls {
+		leg = append(leg, Tup(Byt(e.KeyIdHash.Bytes()), I64(int64(e.PillarCount))))
+	}
+	return Con("Build_lstore", l, depositsTerm(w.qsrDeposits(types.PillarContract)), prod, del, leg)
 }
 
 var pillarNameRx = regexp.MustCompile("^([a-zA-Z0-9]+[-._]?)*[a-zA-Z0-9]$")
@@ -405,7 +436,7 @@ func (w *world) lockOp() {
 		}
 		return owner
 	}
-	switch rng.Intn(22) {
+	switch rng.Intn(27) {
 	case 0, 1:
 		t := constants.StakeTimeUnitSec * int64(1+rng.Intn(3))
 		call(kp, types.StakeContract, znn, big.NewInt(int64(1+rng.Intn(30))*g.Zexp), definition.ABIStake.PackMethodPanic(definition.StakeMethodName, t), "stake.Stake")
@@ -500,6 +531,38 @@ func (w *world) lockOp() {
 			name, k = e.args[0].(string), e.kp
 		}
 		call(other(k), types.PillarContract, znn, zero, definition.ABIPillars.PackMethodPanic(definition.RevokeMethodName, name), "pillar.Revoke")
+	case 21: // RegisterLegacy with a genuine signature (the genesis has three legacy slots for that key)
+		k := []*wallet.KeyPair{g.Pillar4, g.Pillar5, g.Pillar6, kp}[rng.Intn(4)]
+		name := fmt.Sprintf("leg-%d", rng.Intn(30))
+		if rng.Intn(4) != 0 {
+			call(k, types.PillarContract, qsr, constants.PillarQsrStakeBaseAmount, definition.ABIPillars.PackMethodPanic(definition.DepositQsrMethodName), "DepositQsr")
+		}
+		prv, pub := g.Secp1PrvKey, g.Secp1PubKeyB64
+		if rng.Intn(5) == 0 {
+			prv, pub = g.Secp2PrvKey, g.Secp2PubKeyB64
+		}
+		if sig, err := implementation.SignLegacyPillarMessage(k.Address, prv, pub); err == nil {
+			call(k, types.PillarContract, znn, constants.PillarStakeAmount,
+				definition.ABIPillars.PackMethodPanic(definition.LegacyRegisterMethodName, name, w.senders[rng.Intn(len(w.senders))].Address, k.Address, uint8(rng.Intn(101)), uint8(rng.Intn(101)), pub, sig), "pillar.Register", name)
+		}
+	case 22: // UpdatePillar by the owner (or somebody else), new or taken producer address
+		names := []string{g.Pillar1Name, g.Pillar2Name, g.Pillar3Name}
+		owners := []*wallet.KeyPair{g.Pillar1, g.Pillar2, g.Pillar3}
+		i := rng.Intn(3)
+		name, k := names[i], owners[i]
+		if e := w.pickMade("pillar.Register"); e != nil && rng.Intn(2) == 0 {
+			name, k = e.args[0].(string), e.kp
+		}
+		call(other(k), types.PillarContract, znn, zero, definition.ABIPillars.PackMethodPanic(definition.UpdatePillarMethodName, name,
+			w.senders[rng.Intn(len(w.senders))].Address, w.senders[rng.Intn(len(w.senders))].Address, uint8(rng.Intn(120)), uint8(rng.Intn(101))), "pillar.UpdatePillar")
+	case 23:
+		name := []string{g.Pillar1Name, g.Pillar2Name, g.Pillar3Name, "plr-1", "no-such-pillar"}[rng.Intn(5)]
+		if e := w.pickMade("pillar.Register"); e != nil && rng.Intn(2) == 0 {
+			name = e.args[0].(string)
+		}
+		call(kp, types.PillarContract, znn, zero, definition.ABIPillars.PackMethodPanic(definition.DelegateMethodName, name), "pillar.Delegate")
+	case 24:
+		call(kp, types.PillarContract, znn, zero, definition.ABIPillars.PackMethodPanic(definition.UndelegateMethodName), "pillar.Undelegate")
 	default:
 		w.randomLockCall()
 	}
